@@ -11,7 +11,8 @@ VERIF = os.path.dirname(os.path.dirname(os.path.abspath(__file__)))
 LEAN = os.path.join(VERIF, 'lean')
 REPO = os.environ.get('VERIF_REPO', '/repo')
 DRIVER = os.path.join(LEAN, '.lake', 'build', 'bin', 'driver')
-EVIDENCE = os.path.join(VERIF, 'evidence')
+# (tools/seedtest.py redirects evidence of runs against patched trees so that committed evidence stays clean)
+EVIDENCE = os.environ.get('VERIF_EVIDENCE_DIR') or os.path.join(VERIF, 'evidence')
 REPLAYS = os.path.join(VERIF, 'replays')
 CORPUS = os.path.join(VERIF, 'corpus')
 GUARD = 'TRANSITIONS_VERIF'
